@@ -179,6 +179,9 @@ func main() {
 		}
 	}
 	e.tamper()
+	e.concurrentCalls()
+	r.Floor("concurrent.preexec-rounds", 10)
+	r.Floor("concurrent.verify-rounds", 8)
 	r.Floor("programs.committed", 100)
 	r.Floor("programs.with-nested-call", 30)
 	r.Floor("programs.with-transfer", 10)
